@@ -205,7 +205,12 @@ def main(argv=None):
   if getattr(mod, "NEEDS_EXT", True):
     boot.load(asan=asan)
   known = load_known()
-  kf = {(e["property"], e["key"]): e for e in known.get("findings", [])}
+  # an entry names one failing input ("key") or, for one root cause with many failing inputs, each of
+  # them ("keys"); anything not named is still a VIOLATION
+  kf = {}
+  for e in known.get("findings", []):
+    for key in ([e["key"]] if "key" in e else []) + list(e.get("keys", [])):
+      kf[(e["property"], key)] = e
 
   if replay:
     with open(replay) as f:
@@ -248,16 +253,26 @@ def main(argv=None):
   wall = time.time() - t0
 
   new, seen = [], set()
+  grouped = {}
   for v in rep.violations:
     if v["key"] in seen:
       continue
     seen.add(v["key"])
     if (pid, v["key"]) in kf:
-      print("KNOWN-FINDING: property=%s %s [%s]" % (pid, kf[(pid, v["key"])]["what"], v["key"]))
+      e = kf[(pid, v["key"])]
+      if "keys" in e:
+        grouped.setdefault(id(e), [e, []])[1].append(v["key"])
+      else:
+        print("KNOWN-FINDING: property=%s %s [%s]" % (pid, e["what"], v["key"]))
     else:
       new.append(v)
+  for e, keys in grouped.values():
+    print("KNOWN-FINDING: property=%s %s [%d of the %d listed inputs observed, e.g. %s]" % (
+        pid, e["what"], len(keys), len(e["keys"]), keys[0]))
   # listed findings that no longer show up are reported (not an error)
   for (p, k), e in kf.items():
+    if "keys" in e:
+      continue
     if p == pid and k not in seen and e.get("tier", "quick") in (tier, "quick") and rep.exhaustive:
       print("note: listed finding %s no longer observed (%s)" % (k, e["what"]))
 
